@@ -69,7 +69,17 @@ pub fn with_session<R>(spec: &Spec, f: impl for<'b> FnOnce(&Bench, &mut Session<
     let bench = Bench::new(true, BrokerCfg::default(), spec.rx);
     let mut rx = vec![0u8; spec.rx];
     let mut tx = vec![0u8; spec.tx];
-    let mut b = match ConfigBuilder::new(Buffers::new(&mut rx, &mut tx)).client_id(&spec.id) {
+    let mut both = vec![0u8; spec.rx + spec.tx];
+    // the two public ways to hand over the buffers are used in turn (odd total: one backing buffer split at `rx`)
+    let builder = if (spec.rx + spec.tx) % 2 == 1 {
+        match ConfigBuilder::from_buffer(&mut both, spec.rx) {
+            Ok(b) => b,
+            Err(e) => return Built::Config(format!("{:?}", e)),
+        }
+    } else {
+        ConfigBuilder::new(Buffers::new(&mut rx, &mut tx))
+    };
+    let mut b = match builder.client_id(&spec.id) {
         Ok(b) => b,
         Err(e) => return Built::Config(format!("{:?}", e)),
     };
